@@ -70,6 +70,7 @@ Fixpoint run_actions (acts : thunk) (pa : alist) (o : list ev) : alist * list ev
   | [] => (pa, o)
   | AEmit k v :: r => run_actions r pa ((k, v) :: o)
   | ASetParams a :: r => run_actions r a o
+  | AReadParam p :: r => run_actions r pa ((10 + p, lookup_param p pa) :: o)
   end.
 
 Fixpoint run_wevs (h : heap) (ws : list wev) (pa : alist) (o : list ev) : alist * list ev :=
@@ -173,6 +174,7 @@ Definition step_eval (s : state) (e : exp) : state :=
       let self := HC (HGuard gk only tag h) orig in
       let old := params s in
       do_wind s1 kg [ASetParams (BHandler (Some self) :: old)] [ASetParams old] [FGuardBodyDone gk] (CEval body)
+  | DynWindP i p body => do_wind s k [AEmit 1 i; AReadParam p] [AEmit 2 i; AReadParam p] [] (CEval body)
   | CCall body =>
       mkS (CEval body) (FCReturn :: k) (dk s) (params s) (hp s) (conts s) (slots s)
           ((CDEPTH, S (count_of CDEPTH (counts s))) :: counts s) (out s) (st s)
@@ -264,6 +266,7 @@ Fixpoint erase_ccall (e : exp) : exp :=
   | RaiseC a => RaiseC (erase_ccall a)
   | Guard o t h b => Guard o t (erase_ccall h) (erase_ccall b)
   | CCall b => erase_ccall b
+  | DynWindP i p b => DynWindP i p (erase_ccall b)
   end.
 
 Definition run_script_spec (fuel : nat) (e : exp) : nat * list ev :=
